@@ -25,6 +25,8 @@ class_model("HedTag", {
     "tag": "Str", "org_tag": "Str", "extension": "Str", "short_base_tag": "Str", "short_tag": "Str", "long_tag": "Str",
     "base_tag": "Str", "org_base_tag": "Str", "schema_namespace": "Str", "_hed_string": "Str", "span": "Tuple[Int,Int]",
     "_tag": "Opt[Str]", "_namespace": "Str", "_extension_value": "Str", "__str__": "Str",
+    # abstract view of the resolved schema node (pure getters of HedTag, trusted; exercised by the T3 workloads)
+    "known": "Bool",            # bool(self._schema_entry)
 })
 
 class_model("HedGroup", {"_startpos": "Int", "_endpos": "Int", "_hed_string": "Str"})
@@ -102,9 +104,43 @@ def _format_error(interp, args, kwargs):
     return res
 
 
-EXTERNS["ErrorHandler.format_error"] = _format_error
+def _has_attr_term(interp, tag, key):
+    f = z3.Function("has_attr", z3.IntSort(), z3.StringSort(), z3.BoolSort())
+    known = interp.ctx.term(interp.field_read(tag, "known"), BOOL)
+    return z3.And(known, f(tag.t, interp.ctx.strs.to_native(key) if not isinstance(key, str) else z3.StringVal(key)))
+
+
+def _tag_has_attribute(interp, args, kwargs):
+    """HedTag.has_attribute(k) == bool(entry) and entry.has_attribute(k): uninterpreted per (tag, key)"""
+    return SV(BOOL, _has_attr_term(interp, args[0], args[1]))
+
+
+def _tag_is_basic(interp, args, kwargs):
+    ctx = interp.ctx
+    tag = args[0]
+    ext = interp.field_read(tag, "extension")
+    return SV(BOOL, z3.And(ctx.term(interp.field_read(tag, "known"), BOOL), z3.Not(ctx.zbool(ctx.truth(ext)))))
+
+
+def _tag_takes_value(interp, args, kwargs):
+    return SV(BOOL, _has_attr_term(interp, args[0], "takesValue"))
+
+
+if z3 is not None:
+    EXTERNS["ErrorHandler.format_error"] = _format_error
+    EXTERNS["HedTag.has_attribute"] = _tag_has_attribute
+    EXTERNS["has_attr"] = _tag_has_attribute
+    EXTERNS["HedTag.is_basic_tag"] = _tag_is_basic
+    EXTERNS["HedTag.is_takes_value_tag"] = _tag_takes_value
 
 TRUSTED = [
     "ErrorHandler.format_error modelled from the extracted @hed_error/@hed_tag_error decorator table "
     "(kind -> code, severity, sub-tag flag); message text not modelled",
+    "HedTag.has_attribute / is_basic_tag / is_takes_value_tag are pure functions of the resolved schema node "
+    "(has_attr uninterpreted per tag and key; is_basic == known and no extension)",
 ]
+
+# representation invariant of HedTag text layout used by the sub-tag span preconditions (C12): the extension follows the
+# base tag after one slash.  Assumed of every HedTag (established by _calculate_to_canonical_forms, checked at run time by T3).
+HEDTAG_LAYOUT = ("len(original_tag.tag) == len(original_tag.org_base_tag) + (1 + len(original_tag.extension) "
+                 "if len(original_tag.extension) > 0 else 0)")
